@@ -17,10 +17,10 @@ GROUPS = [
         ((P, "make_metadata_key.adjust_for_length"), ("Resp", "adjust_for_length")),
         ((EV, "SingleEvaluator.handle_result"), ("Evaluator", "handle_result")),
     ]),
-    dict(name="rule", sidecars=["dr", "plugins"], units=[(P, "rule.process"), (DR, "run_components")],
+    dict(name="rule", sidecars=["dr", "plugins"], units=[(P, "rule.process"), (DR, "run_components"), (DR, "ComponentType.__init__@tags")],
          refinements=[((P, "rule.process"), ("Delegate", "process"))]),
 ]
 NOT_CARRIED = ["len(str(kwargs)) is an uninterpreted integer (the rendered size of the keyword arguments)",
-               "tags / links of the reported entry are read through get_tags / get_delegate (assumed accessors); "
-               "ComponentType.__init__ (where a rule's tags are collected) is not under contract",
+               "tags / links of the reported entry are read through get_tags / get_delegate (assumed accessors); of ComponentType.__init__ only the "
+               "window that collects a component's tags is under contract (class defaults + declared tags, class default list not modified)",
                "the output formatters other than get_response_of_types"]
